@@ -176,16 +176,23 @@ func (commander *Commander) CreateTransaction(ctx context.Context, parameters Pa
 		return nil, err
 	}
 
-	if !parameters.DryRun {
-		commander.monitor.CommittedTransactions(ctx, *log.Data.(ledger.NewTransactionLogPayload).Transaction, log.Data.(ledger.NewTransactionLogPayload).AccountMetadata)
+	// The log may come from an idempotency key lookup: it describes what that
+	// key did, which is not necessarily a transaction creation.
+	payload, ok := log.Data.(ledger.NewTransactionLogPayload)
+	if !ok {
+		return nil, NewErrConflict()
 	}
 
-	return log.Data.(ledger.NewTransactionLogPayload).Transaction, nil
+	if !parameters.DryRun {
+		commander.monitor.CommittedTransactions(ctx, *payload.Transaction, payload.AccountMetadata)
+	}
+
+	return payload.Transaction, nil
 }
 
 func (commander *Commander) SaveMeta(ctx context.Context, parameters Parameters, targetType string, targetID interface{}, m metadata.Metadata) error {
 	execContext := newExecutionContext(commander, parameters)
-	_, err := execContext.run(ctx, func(executionContext *executionContext) (*ledger.ChainedLog, chan struct{}, error) {
+	chainedLog, err := execContext.run(ctx, func(executionContext *executionContext) (*ledger.ChainedLog, chan struct{}, error) {
 		var (
 			log *ledger.Log
 			at  = ledger.Now()
@@ -219,8 +226,10 @@ func (commander *Commander) SaveMeta(ctx context.Context, parameters Parameters,
 		return err
 	}
 
-	if !parameters.DryRun {
-		commander.monitor.SavedMetadata(ctx, targetType, fmt.Sprint(targetID), m)
+	// Publish what the returned log says: after an idempotency key hit it is the
+	// stored entry, not this request's arguments, that was committed.
+	if payload, ok := chainedLog.Data.(ledger.SetMetadataLogPayload); ok && !parameters.DryRun {
+		commander.monitor.SavedMetadata(ctx, payload.TargetType, fmt.Sprint(payload.TargetID), payload.Metadata)
 	}
 	return nil
 }
@@ -260,11 +269,17 @@ func (commander *Commander) RevertTransaction(ctx context.Context, parameters Pa
 		return nil, err
 	}
 
-	if !parameters.DryRun {
-		commander.monitor.RevertedTransaction(ctx, transactionToRevert, log.Data.(ledger.RevertedTransactionLogPayload).RevertTransaction)
+	// The log may come from an idempotency key lookup (see CreateTransaction).
+	payload, ok := log.Data.(ledger.RevertedTransactionLogPayload)
+	if !ok {
+		return nil, NewErrConflict()
 	}
 
-	return log.Data.(ledger.RevertedTransactionLogPayload).RevertTransaction, nil
+	if !parameters.DryRun && payload.RevertedTransactionID.Cmp(transactionToRevert.ID) == 0 {
+		commander.monitor.RevertedTransaction(ctx, transactionToRevert, payload.RevertTransaction)
+	}
+
+	return payload.RevertTransaction, nil
 }
 
 func (commander *Commander) Close() {
@@ -292,7 +307,7 @@ func (commander *Commander) nextTXID() *big.Int {
 
 func (commander *Commander) DeleteMetadata(ctx context.Context, parameters Parameters, targetType string, targetID any, key string) error {
 	execContext := newExecutionContext(commander, parameters)
-	_, err := execContext.run(ctx, func(executionContext *executionContext) (*ledger.ChainedLog, chan struct{}, error) {
+	chainedLog, err := execContext.run(ctx, func(executionContext *executionContext) (*ledger.ChainedLog, chan struct{}, error) {
 		var (
 			log *ledger.Log
 			at  = ledger.Now()
@@ -324,8 +339,8 @@ func (commander *Commander) DeleteMetadata(ctx context.Context, parameters Param
 		return err
 	}
 
-	if !parameters.DryRun {
-		commander.monitor.DeletedMetadata(ctx, targetType, targetID, key)
+	if payload, ok := chainedLog.Data.(ledger.DeleteMetadataLogPayload); ok && !parameters.DryRun {
+		commander.monitor.DeletedMetadata(ctx, payload.TargetType, payload.TargetID, payload.Key)
 	}
 
 	return nil
